@@ -6,3 +6,5 @@ import OxyModel.Props.C07
 #print axioms C07.C07_retry_iff_predicate
 #print axioms C07.C07_eval_standard
 #print axioms C07.C07_at_most_11
+#print axioms C07.C07_body_dropped_kinds
+#print axioms C07.C07_panic_nothing_written
